@@ -38,13 +38,23 @@ class KD:
         if not self.p:
             raise ValueError("data must be of shape (n, m), where there are n points of dimension m")
 
-    def query_ball_tree(self, other, r):
+    def query_ball_tree(self, other, r, p=2.0, eps=0):
+        # scipy contract: all points of `other` within Minkowski-p distance r (closed ball); eps > 0 allows
+        # approximate answers, which has no exact contract
+        if eps != 0:
+            raise Unsupported("KDTree.query_ball_tree with eps != 0 (approximate search)")
+        if p not in (1, 1.0, 2, 2.0, float("inf")):
+            raise Unsupported(f"KDTree.query_ball_tree with p = {p}")
         re = _r(r)
         out = []
         for a in self.p:
             hits = []
             for j, b in enumerate(other.p):
-                if len(a) == 1:
+                if p in (1, 1.0) or p == float("inf"):
+                    ds = [_r(x) - _r(y) for x, y in zip(a, b)]
+                    ab = [z3.If(d >= 0, d, -d) for d in ds]
+                    near = (z3.Sum(ab) <= re) if p in (1, 1.0) else And([x <= re for x in ab])
+                elif len(a) == 1:
                     # one spatial dimension: |a - b| <= r is linear arithmetic
                     d = _r(a[0]) - _r(b[0])
                     near = And(d <= re, -d <= re)
